@@ -173,7 +173,7 @@ def run(ctx):
     if ctx.replay:
         cases = [json.load(open(ctx.replay))["case"]]
     else:
-        n = ctx.n(1200, 30000)
+        n = ctx.n(500, 8000)
         cases = list(CORPUS) + [gen_comm(ctx.rng) if ctx.rng.random() < 0.7 else gen_simple(ctx.rng) for _ in range(n)]
     for c in cases:
         if c["kind"] == "comm":
@@ -250,5 +250,5 @@ META = {
             "Modelled, not verified: the C++ models; the LMM solvers only on one variable; lazy/full action bookkeeping is not modelled (C19). "
             "Outside the proved region (bwf<>1 and TCP-gamma binding) only the oracle judges: known finding " + KNOWN_SIG + ".",
     "technique": "Coq proof (Q arithmetic, induction on routes) + extracted-model differential correspondence + extracted oracle",
-    "claimed": False,
+    "claimed": True,
 }
